@@ -45,7 +45,8 @@ pub fn compile_text(text: &str) -> Recompiled {
 }
 
 fn close12(a: f64, b: f64) -> bool {
-    a == b || (a - b).abs() <= 1e-12 * a.abs().max(b.abs()).max(1e-300)
+    // (an infinite value is only close to itself: inf <= 1e-12 * inf would hold for any partner)
+    a == b || (a.is_finite() && b.is_finite() && (a - b).abs() <= 1e-12 * a.abs().max(b.abs()).max(1e-300))
 }
 
 type RowKey = (Vec<(String, f64)>, String, f64, String);
@@ -248,7 +249,7 @@ pub fn same_linear_model(a: &LinearModel, b: &LinearModel) -> Result<Vec<String>
         if ka != kb {
             return Err(("domain-kind-differs".into(), format!("{v}: {:?} became {:?}", ka, kb)));
         }
-        let same = |x: f64, y: f64| close12(x, y) || (x - y).abs() <= 1e-9 * x.abs().max(1.0);
+        let same = |x: f64, y: f64| close12(x, y) || (x.is_finite() && y.is_finite() && (x - y).abs() <= 1e-9 * x.abs().max(1.0));
         if same(*la, *lb) && same(*ha, *hb) {
             continue;
         }
@@ -313,8 +314,28 @@ impl Driver for C12 {
         for case in 0..25 {
             let stratum = STRATA[rng.gen_range(0..STRATA.len())];
             let mut m = gen_model(&mut rng, stratum);
+            // a bound that is declared after its use: a piecewise row whose other side is a variable bounded by a later row
+            let mut family: Option<&'static str> = None;
+            if rng.gen_bool(0.04) {
+                let k = rng.gen_range(2..9) as f64;
+                let (x, y, z) = (E::Var(0), E::Var(1), E::Var(2));
+                let unb = VT::Real(f64::NEG_INFINITY, f64::INFINITY);
+                let cmp = |l: E, c: Cmp, r: E| Con { name: None, kind: CKind::Cmp(l, c, r) };
+                let (cons, label): (Vec<Con>, &'static str) = match rng.gen_range(0..5) {
+                    0 => (vec![cmp(E::Abs(Box::new(x.clone())), Cmp::Le, y.clone()), cmp(y.clone(), Cmp::Le, E::Num(k))], "abs{x} <= y, then y <= k"),
+                    1 => (vec![cmp(y.clone(), Cmp::Ge, E::Abs(Box::new(x.clone()))), cmp(y.clone(), Cmp::Le, E::Num(k))], "y >= abs{x}, then y <= k"),
+                    2 => (vec![cmp(E::Max(vec![x.clone(), z.clone()]), Cmp::Le, y.clone()), cmp(y.clone(), Cmp::Le, E::Num(k))], "max{x, z} <= y, then y <= k"),
+                    3 => (vec![cmp(E::Min(vec![x.clone(), z.clone()]), Cmp::Ge, y.clone()), cmp(y.clone(), Cmp::Ge, E::Num(-k))], "min{x, z} >= y, then y >= -k"),
+                    _ => (vec![cmp(y.clone(), Cmp::Ge, E::Abs(Box::new(x.clone()))), cmp(x.clone(), Cmp::Ge, E::Num(k)), cmp(y.clone(), Cmp::Le, E::Num(k + 3.0))], "y >= abs{x}, then x >= k"),
+                };
+                m = M { names: vec!["x".into(), "y".into(), "z".into()], types: vec![unb, unb, unb], cons, sense: Sense::Min, obj: E::add(E::Var(1), E::Var(2)) };
+                // z is only used by two of the shapes: keep it in a row of its own so that it is a column everywhere
+                m.cons.push(Con { name: None, kind: CKind::Cmp(E::Var(2), Cmp::Ge, E::Num(-20.0)) });
+                m.cons.push(Con { name: None, kind: CKind::Cmp(E::Var(2), Cmp::Le, E::Num(20.0)) });
+                family = Some(label);
+            }
             // coefficient magnitudes from 1e-9 to 1e9 and negative constants under unary minus
-            if rng.gen_bool(0.4) {
+            if family.is_none() && rng.gen_bool(0.4) {
                 let k = [1e-9, -1e-9, 3e-7, -0.000001, 1e9, -2.5e8, 123456.789, -0.1, 3e19, -2e20][rng.gen_range(0..10)];
                 let nums: Vec<usize> = (0..m.n()).filter(|i| m.types[*i] != VT::Bool).collect();
                 if let Some(&i) = nums.first() {
@@ -329,7 +350,7 @@ impl Driver for C12 {
                 }
             }
             // a named bare assertion that folds to false (the compiler carries it as the row 0 = 1)
-            if rng.gen_bool(0.06) {
+            if family.is_none() && rng.gen_bool(0.06) {
                 let bools: Vec<usize> = (0..m.n()).filter(|i| m.types[*i] == VT::Bool).collect();
                 let e = match (rng.gen_range(0..3), bools.first()) {
                     (0, Some(&b)) => E::And(vec![E::Var(b), E::Num(0.0)]),
@@ -339,7 +360,7 @@ impl Driver for C12 {
                 m.cons.push(Con { name: Some("never".into()), kind: CKind::Assert(e) });
             }
             // operands that are constant sub-expressions: a / (p / q), a - (p - q), a / (p * q), a * (p / q)
-            if rng.gen_bool(0.3) {
+            if family.is_none() && rng.gen_bool(0.3) {
                 let nums: Vec<usize> = (0..m.n()).filter(|i| m.types[*i] != VT::Bool).collect();
                 if let Some(&i) = nums.last() {
                     let (p, q) = ([80.0, 3.0, 0.5, 7.0][rng.gen_range(0..4)], [100.0, 4.0, 0.25, 2.0][rng.gen_range(0..4)]);
@@ -359,7 +380,22 @@ impl Driver for C12 {
                 continue;
             }
             out.case = case;
-            let Compiled::Ok(lm) = compile_m(&m) else {
+            if let Some(f) = family {
+                out.tag(&format!("family:{f}"));
+            }
+            // the family goes through the text door (the builder may hand the rows over in another shape)
+            let first = if family.is_some() {
+                match std::panic::catch_unwind(std::panic::AssertUnwindSafe(|| m.to_model().to_string())).map(|t| compile_text(&t)) {
+                    Ok(Recompiled::Ok(lm)) => Compiled::Ok(lm),
+                    _ => compile_m(&m),
+                }
+            } else {
+                compile_m(&m)
+            };
+            let Compiled::Ok(lm) = first else {
+                if family.is_some() {
+                    out.tag("family:not-compiled");
+                }
                 out.tag("not-compiled");
                 continue;
             };
@@ -384,6 +420,28 @@ impl Driver for C12 {
                             if !tighter.is_empty() {
                                 if let Some(why) = tightening_is_sound(&lm, &lm2, &tighter) {
                                     out.violation(&format!("{route}:recompiled-domain-cuts-feasible-points"), &why, detail(route, text, json!({"recompiled": lm2.to_string()})));
+                                    continue;
+                                }
+                                {
+                                    let (na, nb) = (normalize(&lm), normalize(&lm2));
+                                    for v in &tighter {
+                                        if let (Some(x), Some(y)) = (na.intervals.get(v), nb.intervals.get(v)) {
+                                            if (x.1.is_infinite() && y.1.is_finite()) || (x.2.is_infinite() && y.2.is_finite()) {
+                                                out.tag(&format!("{route}:infinite-end-became-finite"));
+                                                break;
+                                            }
+                                        }
+                                    }
+                                }
+                                if route == "LinearModel::to_string" && family.is_some() {
+                                    // on every model of this family the first compilation is already at the fixed point of the
+                                    // bound propagation (plain integers, no rounding, no contraction): a range that the
+                                    // second compilation tightens was left unfinished by the first
+                                    out.violation(
+                                        &format!("recompiled-domain-tighter({})", family.unwrap()),
+                                        &format!("the re-compiled linear model has tighter ranges for {:?}", tighter),
+                                        detail(route, text, json!({"recompiled": lm2.to_string()})),
+                                    );
                                     continue;
                                 }
                                 out.tag(&format!("{route}:round-trip-ok(domains-tightened-further)"));
